@@ -113,6 +113,8 @@ func runC07(r *engine.Run) {
 		return
 	}
 	lorawan.VerifRegistryReset()
+	r.Rule += " E3 (schedules): two registrations of different (direction, CID) pairs at the same time next to a stream decoder, every interleaving (preemption-bounded and unbounded with state-key pruning): both calls return nil, both registrations are in the registry afterwards, the decoder frames with the size before or after."
+	mergeSchedSummary(r, "C07")
 	macCommandReuse(r)
 
 	// ---- values
@@ -717,6 +719,8 @@ func runC07(r *engine.Run) {
 			}
 		}
 	})
+
+	registryChangeGaps(r)
 
 	// ---- registry histories (E2)
 	type regOp struct {
